@@ -139,35 +139,38 @@ func (o *Outlines) GlyphBBoxPDF(fm matrix.Matrix, gid glyph.ID) (bbox rect.Rect)
 	M = M.Mul(matrix.Scale(1000, 1000))
 
 	first := true
-cmdLoop:
-	for _, cmd := range g.Cmds {
-		var x, y float64
-		switch cmd.Op {
-		case OpMoveTo, OpLineTo:
-			x = cmd.Args[0]
-			y = cmd.Args[1]
-		case OpCurveTo:
-			x = cmd.Args[4]
-			y = cmd.Args[5]
-		default:
-			continue cmdLoop
+	add := func(xLo, xHi, yLo, yHi float64) {
+		if first || xLo < bbox.LLx {
+			bbox.LLx = xLo
 		}
-
-		x, y = M.Apply(x, y)
-
-		if first || x < bbox.LLx {
-			bbox.LLx = x
+		if first || xHi > bbox.URx {
+			bbox.URx = xHi
 		}
-		if first || x > bbox.URx {
-			bbox.URx = x
+		if first || yLo < bbox.LLy {
+			bbox.LLy = yLo
 		}
-		if first || y < bbox.LLy {
-			bbox.LLy = y
-		}
-		if first || y > bbox.URy {
-			bbox.URy = y
+		if first || yHi > bbox.URy {
+			bbox.URy = yHi
 		}
 		first = false
+	}
+	var posX, posY float64
+	for _, cmd := range g.Cmds {
+		switch cmd.Op {
+		case OpMoveTo, OpLineTo:
+			posX, posY = M.Apply(cmd.Args[0], cmd.Args[1])
+			add(posX, posX, posY, posY)
+		case OpCurveTo:
+			// An affine image of a Bezier curve is the Bezier curve of the
+			// transformed control points.
+			x1, y1 := M.Apply(cmd.Args[0], cmd.Args[1])
+			x2, y2 := M.Apply(cmd.Args[2], cmd.Args[3])
+			x3, y3 := M.Apply(cmd.Args[4], cmd.Args[5])
+			xLo, xHi := bezierRange(posX, x1, x2, x3)
+			yLo, yHi := bezierRange(posY, y1, y2, y3)
+			add(xLo, xHi, yLo, yHi)
+			posX, posY = x3, y3
+		}
 	}
 
 	return bbox
